@@ -53,6 +53,17 @@ Proof.
   split; [exact H|]. intros E. rewrite H in E. exact (C01_byte_level mi ms Hmi Hms _ dec_pieces E).
 Qed.
 
+(* ... and the run always returns: for calls of less than 2^62 bytes each, construction, every encode / encode_copy /
+   encode_read call and finish return -- no assertion of the encoder, of the iovec or of the arena fires, and
+   backfill_or_panic always finds the encoder's own Backref pending with the length it registered *)
+From WP Require hcobs.GeoEncNoPanic.
+Theorem C01_geo_encoder_never_panics (mi ms : nat) ops :
+  0 < mi <= 252 -> 0 < ms < RADIX * RADIX -> Forall GeoEncNoPanic.esmall ops ->
+  exists e h g ge' h' g' out hf gf,
+    GeoEnc.ge_new [] Geo.empty_iov mi = Some (e, h, g) /\ GeoEncProofs.ge_run ms e h g ops = Some (ge', h', g', out) /\
+    GeoEnc.ge_terminate ge' h' g' = Some (hf, gf).
+Proof. intros Hmi Hms. exact (GeoEncNoPanic.genc_never_panics mi ms Hmi Hms ops). Qed.
+
 Example C01_geo_example :
   match GeoEnc.ge_new [] Geo.empty_iov 3 with
   | Some (e, h, g) =>
@@ -76,3 +87,4 @@ Check C01_roundtrip : forall (mi ms : nat) (ops : list eop) (dec_pieces : list (
 Print Assumptions C01_roundtrip.
 Print Assumptions C01_roundtrip_prod.
 Print Assumptions C01_geo_encoder.
+Print Assumptions C01_geo_encoder_never_panics.
